@@ -57,3 +57,7 @@ register_meta('C03', level='proof', explanation='contracts on the digit-literal 
               assumptions=['Decimal arithmetic under the 15-digit context is exact real arithmetic for the values involved',
                            'Decimal(0.1) behaves as one tenth after multiplication by a digit and rounding (finite lemma, tools/validate_lib.py)',
                            'layouts of literals are fixed per contract; the regex layer decides which literals are extracted'])
+
+register_meta('C05', level='proof', explanation='contracts on table binding, key loop, compound currency arithmetic + closed exhaustive table evaluation',
+              assumptions=['float arithmetic as reals', 'the closed table obligation is an exhaustive evaluation of the real package over the finite tables with the numeral 5',
+                           'NumberWithUnitExtractor.extract not under contract'])
